@@ -30,6 +30,21 @@ pub fn run(ctx: &Ctx) -> i32 {
         }
         bases.push(("b2-header-flags-0".into(), f));
     }
+    // cels whose bytes repeat an earlier cel of the file (a decoder that reuses earlier results must still look at the type)
+    {
+        let fmt = Fmt::Rgba;
+        let mut f = gen::file(3, 3, &fmt, &[10, 20, 30]);
+        f.frames[0].push(Body::Tileset(tileset(0, 2, 1, 1, tile_pixels(&fmt, 2, 1, 1, 2, (0, 0)), "t")));
+        f.frames[0].push(Body::Layer(Layer::image("a")));
+        f.frames[0].push(Body::Layer(Layer::image("b")));
+        f.frames[0].push(Body::Layer(Layer::tilemap("m", 0)));
+        for fr in 0..3usize {
+            f.frames[fr].push(raw_cel(0, 0, 0, 255, 2, 2, pixels(&fmt, 2, 2, 1, (0, 0))));
+            f.frames[fr].push(zcel(1, 1, 1, 200, 2, 2, pixels(&fmt, 2, 2, 1, (0, 0)), 6));
+            f.frames[fr].push(tm_cel(2, 0, 0, 255, 1, 1, vec![1]));
+        }
+        bases.push(("repeated-cels".into(), f));
+    }
     // degenerate entities: layers without cels, a group, tilemap cels without tiles, a one-frame tag
     {
         let fmt = Fmt::Rgba;
